@@ -21,7 +21,6 @@ import (
 	"fmt"
 	"os"
 	"runtime"
-	"runtime/pprof"
 	"sort"
 	"sync"
 	"time"
@@ -235,7 +234,9 @@ func (h *harness) runAddrV2Spec() {
 			h.r.Add("a_addrv2_netid_length_cases", 1)
 			h.r.Nontrivial("addrv2spec|" + desc)
 			h.report("addrv2spec", "addrv2", c, desc, "", fs, func() []finding { f, _ := checkAddrV2Spec(id, l, c); return f },
-				func() aReplay { return aReplay{Part: "a", Sub: "addrv2spec", Cmd: "addrv2", Pver: c.Pver, ID: id, Len: l} })
+				func() aReplay {
+					return aReplay{Part: "a", Sub: "addrv2spec", Cmd: "addrv2", Pver: c.Pver, ID: id, Len: l}
+				})
 		}
 	}
 }
@@ -539,7 +540,6 @@ func main() {
 	if err != nil {
 		r.Broken("tmp dir: %v", err)
 	}
-	defer os.RemoveAll(tmp)
 
 	r.Rule("part (a): one case = (message type, protocol version, encoding, value) with values from a product of small per-field domains " +
 		"(boundary counts 0/1/2/0xfc/0xfd/0xffff/0x10000/limit/limit+1, integer extremes, every service bit, string lengths empty/max/max+1, BIP155 network ids x lengths); " +
@@ -555,6 +555,7 @@ func main() {
 
 	if r.ReplayPath != "" {
 		replay(r, h, tmp)
+		os.RemoveAll(tmp)
 		r.Finish(false)
 	}
 
@@ -573,16 +574,12 @@ func main() {
 	wg.Add(1)
 	go func() {
 		defer wg.Done()
-		if os.Getenv("C08_SKIP_B") != "" {
+		if os.Getenv("C08_SKIP_B") != "" { // development aid
+			r.Cap("C08_SKIP_B set: part (b) not run")
 			return
 		}
 		perDec = runWorkers(r, full, nWorkers, tmp)
 	}()
-	if pf := os.Getenv("C08_PROF"); pf != "" {
-		f, _ := os.Create(pf)
-		pprof.StartCPUProfile(f)
-		defer pprof.StopCPUProfile()
-	}
 
 	// part (a)
 	var cases []*valCase
@@ -597,7 +594,8 @@ func main() {
 	}
 	// big first (longest jobs first)
 	sort.SliceStable(cases, func(i, j int) bool { return cases[i].big && !cases[j].big })
-	if os.Getenv("C08_SKIP_A") != "" {
+	if os.Getenv("C08_SKIP_A") != "" { // development aid
+		r.Cap("C08_SKIP_A set: part (a) value cases not run")
 		cases = nil
 	}
 	slow := os.Getenv("C08_SLOW") != ""
@@ -618,7 +616,9 @@ func main() {
 		r.Nontrivial(fmt.Sprintf("realblock|%d", i))
 		raw := rw.EncodeBytes(rw.BlockFields, blk, rw.Ctx{Witness: true})
 		h.report("realblock", "block", rw.Ctx{Witness: true}, fmt.Sprintf("shipped-block-%d", i), hash8(raw), fs,
-			func() []finding { return checkBlockExtras(blk) }, func() aReplay { return aReplay{Part: "a", Sub: "realblock", Cmd: "block", Raw: hex.EncodeToString(raw)} })
+			func() []finding { return checkBlockExtras(blk) }, func() aReplay {
+				return aReplay{Part: "a", Sub: "realblock", Cmd: "block", Raw: hex.EncodeToString(raw)}
+			})
 		vc := &valCase{cmd: "block", v: blk, label: "real", big: true}
 		for _, c := range []rw.Ctx{{Pver: latest}, {Pver: latest, Witness: true}} {
 			c := c
@@ -627,7 +627,9 @@ func main() {
 			r.Trace(1)
 			h.report("realblock-msg", "block", c, fmt.Sprintf("shipped-block-%d", i), hash8(raw), fs,
 				func() []finding { return append(checkValue(vc, c), checkFraming(vc, c, wire.MainNet)...) },
-				func() aReplay { return aReplay{Part: "a", Sub: "realblock", Cmd: "block", Raw: hex.EncodeToString(raw)} })
+				func() aReplay {
+					return aReplay{Part: "a", Sub: "realblock", Cmd: "block", Raw: hex.EncodeToString(raw)}
+				})
 		}
 	}
 	rcs := rawCases(full)
@@ -639,13 +641,16 @@ func main() {
 		r.Add("a_huge_count_cases", 1)
 		r.Nontrivial("raw|" + rc.label)
 		h.report("raw", "tx/block", rc.c, rc.label, "", fs, func() []finding { return checkRaw(rc) },
-			func() aReplay { return aReplay{Part: "a", Sub: "raw", Label: rc.label, Pver: rc.c.Pver, Witness: rc.c.Witness} })
+			func() aReplay {
+				return aReplay{Part: "a", Sub: "raw", Label: rc.label, Pver: rc.c.Pver, Witness: rc.c.Witness}
+			})
 		runtime.GC()
 	}
 	aWall := time.Since(t0).Seconds()
 
 	wg.Wait()
 	mergeKeys(r, tmp, nWorkers)
+	os.RemoveAll(tmp)
 
 	maxX := 0.0
 	for _, s := range perDec {
@@ -658,22 +663,24 @@ func main() {
 		rawLabels = append(rawLabels, rc.label)
 	}
 	r.Set("bounds", map[string]interface{}{
-		"message_types":              len(allCmds),
-		"protocol_versions":          pversAll,
-		"encodings":                  []string{"base", "witness"},
-		"values_per_message_type":    perCmd,
-		"addrv2_network_ids":         addrV2IDs,
-		"addrv2_address_lengths":     addrV2Lens,
-		"huge_count_cases":           rawLabels,
-		"framing_networks":           []string{"MainNet", "TestNet3", "SimNet"},
-		"hostile_short_strings":      "all byte strings of length 0,1,2 for every decoder",
-		"hostile_substitution_bytes": "00 01 7f 80 fc fd fe ff",
-		"hostile_claimed_counts":     claimVals,
-		"hostile_frame_lengths":      frameLenVals,
-		"hostile_deviations":         map[bool]string{false: "1 (quick)", true: "1 everywhere + all 256 values and all pairs within count/length/flag fields (thorough)"}[full],
-		"hostile_worker_processes":   nWorkers,
-		"alloc_bound_bytes":          allocBound,
-		"alloc_bound_factor":         allocFactor,
+		"message_types":                len(allCmds),
+		"protocol_versions":            pversAll,
+		"encodings":                    []string{"base", "witness"},
+		"values_per_message_type":      perCmd,
+		"addrv2_network_ids":           addrV2IDs,
+		"addrv2_address_lengths":       addrV2Lens,
+		"huge_count_cases":             rawLabels,
+		"framing_networks":             []string{"MainNet", "TestNet3", "SimNet"},
+		"hostile_short_strings":        "all byte strings of length 0,1,2 for every decoder",
+		"hostile_substitution_bytes":   "00 01 7f 80 fc fd fe ff",
+		"hostile_claimed_counts":       claimVals,
+		"hostile_claimed_counts_small": claimValsSmall,
+		"hostile_claim_policy":         map[bool]string{false: "every count/length field of the first 3 seeds of each decoder and context (tx: the witness seed; block: the empty block and the block holding it) is rewritten to every value of hostile_claimed_counts, the fields of the other seeds to hostile_claimed_counts_small", true: "every count/length field of every seed is rewritten to every value of hostile_claimed_counts"}[full],
+		"hostile_frame_lengths":        frameLenVals,
+		"hostile_deviations":           map[bool]string{false: "1 (quick)", true: "1 everywhere + all 256 values and all pairs within count/length/flag fields (thorough)"}[full],
+		"hostile_worker_processes":     nWorkers,
+		"alloc_bound_bytes":            allocBound,
+		"alloc_bound_factor":           allocFactor,
 	})
 	r.Set("hostile_per_decoder", perDec)
 	r.Set("max_alloc_x_MaxMessagePayload_observed", maxX)
@@ -682,7 +689,6 @@ func main() {
 		"core_tx_vectors": st.txVectors, "of_which_witness": st.txVectorsWitness,
 	})
 	r.Set("part_a_wall_s", aWall)
-	pprof.StopCPUProfile()
 	exemptions, _ := json.Marshal(exemptionList)
 	r.Set("canonicity_exemptions", json.RawMessage(exemptions))
 	r.Finish(true)
